@@ -3,6 +3,7 @@ package operator
 import (
 	"bytes"
 	"encoding/binary"
+	"reduction.dev/reduction/util/verifhook"
 	"time"
 
 	"reduction.dev/reduction/dkv"
@@ -29,6 +30,7 @@ type Timer struct {
 }
 
 func NewTimerStore(db *dkv.DB, keySpace *partitioning.KeySpace, keyGroupRange partitioning.KeyGroupRange, maxCacheSize uint64) *TimerStore {
+	maxCacheSize = uint64(verifhook.Tune("operator.timerCacheBytes", int64(maxCacheSize)))
 	// Make partitions for each key group
 	partitions := make([]ds.QueuePartition[[]byte], keyGroupRange.Size())
 	for i, kg := range keyGroupRange.KeyGroups() {
